@@ -181,7 +181,7 @@ theorem inAnotherChunk_frame {cfg : Cfg} {k : Kind} {s : State} {L : Layout} {h 
     simp only [hcur, pure_eq_ok, Except.ok.injEq, Prod.mk.injEq] at e
     obtain ⟨rfl, rfl⟩ := e
     exact ⟨fun n _ => Ext.refl n _, Or.inl rfl, Or.inl rfl,
-      fun e he => (by cases he; exact ⟨rfl, CurAdv.refl _, fun _ => ⟨rfl, rfl⟩, ⟨fun _ => hcur, fun _ => rfl⟩⟩),
+      fun e he => (by cases he; exact ⟨rfl, rfl, fun _ => ⟨rfl, rfl⟩, ⟨fun _ => hcur, fun _ => rfl⟩⟩),
       fun _ => rfl⟩
   | unallocated =>
     simp only [hcur] at e
@@ -192,7 +192,7 @@ theorem inAnotherChunk_frame {cfg : Cfg} {k : Kind} {s : State} {L : Layout} {h 
     obtain ⟨rfl, rfl⟩ := g4 er he
     obtain ⟨c1, c2, c3, c4, c5, c6, c7⟩ := hc
     obtain ⟨d1, d2⟩ := c3 er rfl
-    refine ⟨(by rw [d1]), Or.inl c1, fun hne => ?_, ⟨fun h => ?_, fun h => (by rw [hcur] at h; cases h)⟩⟩
+    refine ⟨(by rw [d1]), c1, fun hne => ?_, ⟨fun h => ?_, fun h => (by rw [hcur] at h; cases h)⟩⟩
     · rcases d2 with rfl | rfl
       · exact absurd rfl hne
       · rw [c5 rfl]; exact ⟨rfl, rfl⟩
@@ -219,20 +219,30 @@ theorem inAnotherChunk_frame {cfg : Cfg} {k : Kind} {s : State} {L : Layout} {h 
       simp only at e
       obtain ⟨⟨s1, r1⟩, h1, e⟩ := bind_eq_ok e
       have hc := appendFor_frame h1
-      obtain ⟨g1, g2, g3, g4, g5⟩ := freshStep_frame hc e
-      refine ⟨fun n hn => (w4.mono (hn i hcur)).trans (g1 n), (by rw [← w1]; exact g2), (by rw [← w2]; exact g3),
-        fun er he => ?_, fun hcl => (by rw [hcur] at hcl; cases hcl)⟩
-      obtain ⟨rfl, rfl⟩ := g4 er he
-      obtain ⟨c1, c2, c3, c4, c5, c6, c7⟩ := hc
-      obtain ⟨d1, d2⟩ := c3 er rfl
-      refine ⟨(by rw [d1, w3]), ?_, fun hne => ?_, ⟨fun h => ?_, fun h => (by rw [hcur] at h; cases h)⟩⟩
-      · rcases hadv with ha | ⟨i', j, ha1, ha2, ha3, ha4⟩
-        · exact Or.inl (c1.trans ha)
-        · exact Or.inr ⟨i', j, ha1, ha2, ha3, c1.trans ha4⟩
-      · rcases d2 with rfl | rfl
-        · exact absurd rfl hne
-        · rw [c5 rfl]; exact ⟨w1, w2⟩
-      · rcases d2 with rfl | rfl <;> cases h
+      cases r1 with
+      | ok idx =>
+        rw [appendStep_ok] at e
+        obtain ⟨g1, g2, g3, g4, g5⟩ := freshStep_frame hc e
+        refine ⟨fun n hn => (w4.mono (hn i hcur)).trans (g1 n), (by rw [← w1]; exact g2), (by rw [← w2]; exact g3),
+          fun er he => ?_, fun hcl => (by rw [hcur] at hcl; cases hcl)⟩
+        obtain ⟨_, hbad⟩ := g4 er he
+        cases hbad
+      | error e1 =>
+        rw [appendStep_error] at e
+        simp only [Except.ok.injEq, Prod.mk.injEq] at e
+        obtain ⟨rfl, rfl⟩ := e
+        obtain ⟨c1, c2, c3, c4, c5, c6, c7⟩ := hc
+        obtain ⟨d1, d2⟩ := c3 e1 rfl
+        refine ⟨fun n hn => ((w4.mono (hn i hcur)).trans (c2 n)).trans (Ext.setCur n s1 _),
+          (by rw [← w1]; exact c6), (by rw [← w2]; exact c7),
+          fun er he => ?_, fun hcl => (by rw [hcur] at hcl; cases hcl)⟩
+        cases he
+        refine ⟨(by show s1.chunks.length = _; rw [d1, w3]), hcur.symm, fun hne => ?_,
+          ⟨fun h => ?_, fun h => (by rw [hcur] at h; cases h)⟩⟩
+        · rcases d2 with rfl | rfl
+          · exact absurd rfl hne
+          · rw [c5 rfl]; exact ⟨w1, w2⟩
+        · rcases d2 with rfl | rfl <;> cases h
 
 /-! ## allocGeneric, alloc -/
 theorem SlowFrame.map {cfg : Cfg} {s s' : State} {α β : Type} {r : Except AErr α} (f : α → β)
@@ -246,7 +256,7 @@ theorem SlowFrame.map {cfg : Cfg} {s s' : State} {α β : Type} {r : Except AErr
 theorem SlowFrame.same (cfg : Cfg) (s : State) {α : Type} {r : Except AErr α}
     (h : ∀ e, r = .error e → e ≠ .alloc ∧ (e = .claimed ↔ s.cur = .claimed)) : SlowFrame cfg s s r :=
   ⟨fun n _ => Ext.refl n s, Or.inl rfl, Or.inl rfl,
-   fun e he => ⟨rfl, CurAdv.refl s, fun _ => ⟨rfl, rfl⟩, (h e he).2⟩, fun _ => rfl⟩
+   fun e he => ⟨rfl, rfl, fun _ => ⟨rfl, rfl⟩, (h e he).2⟩, fun _ => rfl⟩
 
 /-- frame of `allocGeneric` (fast path, then slow path), for every outcome -/
 theorem allocGeneric_frame {cfg : Cfg} {k : Kind} {s : State} {L : Layout} {h hs : Hints}
@@ -322,7 +332,7 @@ theorem reserve_frame {cfg : Cfg} {s : State} {add : Nat} {s' : State} {r : Exce
         obtain ⟨d1, d2⟩ := c3 e1 rfl
         refine ⟨c2, ⟨fun n _ => c2 n, c6, c7, fun er he => ?_, fun hcl => (by rw [hcur] at hcl; cases hcl)⟩, fun _ _ => c1⟩
         cases he
-        refine ⟨(by rw [d1]), Or.inl c1, fun hne => ?_, ⟨fun h => ?_, fun h => (by rw [hcur] at h; cases h)⟩⟩
+        refine ⟨(by rw [d1]), c1, fun hne => ?_, ⟨fun h => ?_, fun h => (by rw [hcur] at h; cases h)⟩⟩
         · rcases d2 with rfl | rfl
           · exact absurd rfl hne
           · rw [c5 rfl]; exact ⟨rfl, rfl⟩
@@ -380,7 +390,7 @@ theorem reserve_frame {cfg : Cfg} {s : State} {add : Nat} {s' : State} {r : Exce
                 refine ⟨c2, ⟨fun n _ => c2 n, c6, c7, fun er he => ?_, fun hcl => (by rw [hcur] at hcl; cases hcl)⟩,
                   fun _ _ => c1⟩
                 cases he
-                refine ⟨(by rw [d1]), Or.inl c1, fun hne => ?_, ⟨fun h => ?_, fun h => (by rw [hcur] at h; cases h)⟩⟩
+                refine ⟨(by rw [d1]), c1, fun hne => ?_, ⟨fun h => ?_, fun h => (by rw [hcur] at h; cases h)⟩⟩
                 · rcases d2 with rfl | rfl
                   · exact absurd rfl hne
                   · rw [c5 rfl]; exact ⟨rfl, rfl⟩
